@@ -115,19 +115,14 @@ func JSONGetNaturalLanguageField(val *fastjson.Value, prop string) NaturalLangua
 	case fastjson.TypeObject:
 		ob, _ := v.Object()
 		ob.Visit(func(key []byte, v *fastjson.Value) {
-			l := LangRefValue{}
-			l.Ref = LangRef(key)
-			if err := l.Value.UnmarshalJSON(v.GetStringBytes()); err == nil {
-				if l.Ref != NilLangRef || len(l.Value) > 0 {
-					n = append(n, l)
-				}
+			// NOTE: the parser has already decoded the JSON string, the text is taken as it is
+			l := LangRefValue{Ref: LangRef(key), Value: Content(v.GetStringBytes())}
+			if l.Ref != NilLangRef || len(l.Value) > 0 {
+				n = append(n, l)
 			}
 		})
 	case fastjson.TypeString:
-		l := LangRefValue{}
-		if err := l.UnmarshalJSON(v.GetStringBytes()); err == nil {
-			n = append(n, l)
-		}
+		n = append(n, LangRefValue{Ref: NilLangRef, Value: Content(v.GetStringBytes())})
 	}
 
 	return n
